@@ -92,6 +92,10 @@ def _bloom_target(ctx, d, counting, case):
         ctx.feat("saturated_setop_state_bytes_not_used")
     path = getattr(d, "path", None)
     backing = os.path.join(d.dir, path) if (kind == "ondisk" and path) else None
+    if backing and exportable:
+        # an assignment through the elements_added setter leaves the footer in the FILE behind until the next add / export / close;
+        # bring it up to date once, so that the raw file can be part of the observable state below
+        o.export(os.path.join(tmp, "settle.blm"))
 
     def raw_cells():
         return bytes(bytearray(o.bloom[: o.bloom_length])) if not counting else o.bloom.tobytes()
